@@ -65,7 +65,7 @@ def extract_all(chk):
 
 class Item:
     """one image of one message with its chains"""
-    __slots__ = ('case', 'm', 'img', 'mut', 'chains', 'evals', 'model', 'impl')
+    __slots__ = ('case', 'm', 'img', 'mut', 'chains', 'evals', 'model', 'impl', 'cur', 'cruns', 'cmodel')
 
     def __init__(self, case, m, img, mut):
         self.case, self.m, self.img, self.mut = case, m, img, mut
@@ -73,9 +73,12 @@ class Item:
         self.evals = []
         self.model = None
         self.impl = {}
+        self.cur = None       # c10gen.CursorSpec
+        self.cruns = []       # [(k, var, needs_end, kind)]
+        self.cmodel = None
 
 
-def build_items(chk, run, values_per_msg, muts_per_image, max_image, max_chains):
+def build_items(chk, run, values_per_msg, muts_per_image, max_image, max_chains, max_cursor_members=40):
     items = []
     skipped = 0
     for c in run.cases:
@@ -108,6 +111,12 @@ def build_items(chk, run, values_per_msg, muts_per_image, max_image, max_chains)
                     spec = c10gen.Spec(bo, m, im)
                     it.chains = c10gen.enum_chains(spec, max_chains=max_chains)
                     it.evals = [spec.eval(ch) for ch in it.chains]
+                    if c10gen.exact_composites(c.s, m['name']):
+                        it.cur = c10gen.CursorSpec(c10gen.Spec(bo, m, im))
+                        it.cruns = it.cur.runs()[:5 * max_cursor_members]
+                    else:
+                        run.stats['cursor_skipped_inexact_composite'] = run.stats.get(
+                            'cursor_skipped_inexact_composite', 0) + 1
                     items.append(it)
     run.stats['images_skipped_too_large'] = skipped
     return items
@@ -132,7 +141,7 @@ def judge(chk, run, it, cxx, std, impl, stats):
             exp = expected_char(ev, n)
             stats['kinds'][ev.kind] = stats['kinds'].get(ev.kind, 0) + 1
             stats['outcomes'][got] = stats['outcomes'].get(got, 0) + 1
-            if mrun[j] == 'U':
+            if mrun[j] == 'U' or ev.huge:
                 stats['model_undefined'] += 1
             if got == exp and exp == 'A' and ev.needs_end <= c10gen.INF - 1 and n + 1 > ev.needs_end - 1:
                 stats['boundary'] += 1
@@ -144,7 +153,11 @@ def judge(chk, run, it, cxx, std, impl, stats):
             elif exp == 'o' and got != 'o':
                 bad = 'spurious-assertion'
             elif exp == 'A' and got == 'o':
-                if past:
+                if ev.huge:
+                    # 64-bit header values whose products/sums leave the pointer range: the real arithmetic
+                    # wraps modulo 2^64, the specification's positions are not meaningful any more
+                    stats['wrap_regime_ok'] += 1
+                elif past:
                     # a check on a view that begins past the end pointer passed although the bytes it guards
                     # do not exist (nothing was touched, else FAULT)
                     bad = 'check-passed-on-view-past-end'
@@ -188,7 +201,7 @@ def judge(chk, run, it, cxx, std, impl, stats):
                     'case': case})
             elif bad == 'bad-path':
                 chk.report_unproved('driver-path', {'chain': ev.cpp_path, 'message': it.m['name']})
-            if got != mrun[j] and mrun[j] != 'U' and ('model', j) not in reported:
+            if got != mrun[j] and mrun[j] != 'U' and not ev.huge and ('model', j) not in reported:
                 reported.add(('model', j))
                 stats['model_mismatch'] += 1
                 chk.report_unproved('impl≠model (Rt.Guards does not describe what the accessor does)', {
@@ -202,11 +215,79 @@ def judge(chk, run, it, cxx, std, impl, stats):
                 chk.report_unproved('model-run-without-guard', {'chain': ev.cpp_path, 'n': n})
 
 
+def judge_cursor(chk, run, it, cxx, std, impl, stats):
+    L = len(it.img)
+    reported = set()
+    nr = len(it.cruns)
+    for n in range(L + 1):
+        ib = impl[n]
+        mrun, mguard, mspec = it.cmodel[n]
+        for j, (k, var, needs_end, kind) in enumerate(it.cruns):
+            chk.cov['evaluations'] += 1
+            stats['cursor_calls'] += 1
+            got = ib[j]
+            exp = 'o' if needs_end <= n else 'A'
+            kname = '%s.%s' % (kind, var)
+            stats['kinds'][kname] = stats['kinds'].get(kname, 0) + 1
+            stats['outcomes'][got] = stats['outcomes'].get(got, 0) + 1
+            huge = it.cur.huge
+            past = it.cur.past_end(k, n)
+            bad = None
+            if got in 'FU':
+                bad = 'out-of-view-access-not-asserted' if got == 'F' else 'undefined-behaviour'
+            elif exp == 'o' and got != 'o':
+                bad = 'spurious-assertion'
+            elif exp == 'A' and got == 'o':
+                if huge:
+                    stats['wrap_regime_ok'] += 1
+                elif past:
+                    bad = 'check-passed-on-view-past-end'
+                else:
+                    stats['ok_beyond_needs'] += 1
+                    stats['ok_beyond_needs_kinds'][kname] = stats['ok_beyond_needs_kinds'].get(kname, 0) + 1
+                    if len(stats['ok_beyond_needs_samples']) < 6:
+                        stats['ok_beyond_needs_samples'].append({'cursor_run': [k, var], 'n': n, 'needs_end': needs_end,
+                                                                 'kind': kind, 'image': wire.hexs(it.img)})
+            cause = 'none'
+            if bad:
+                cause = 'pointer-range-overflow' if huge else ('view-begins-past-end' if past else 'unknown')
+            key = (j, bad, cause)
+            if bad and key not in reported:
+                reported.add(key)
+                stats['violations_by_cause'][cause] = stats['violations_by_cause'].get(cause, 0) + 1
+                case = {'accessor': kname, 'n': n, 'needs_end': (needs_end if needs_end < c10gen.INF else 'beyond-image'),
+                        'outcome': CH[got], 'expected': CH[exp], 'what': bad, 'cause': cause,
+                        'mutated': it.mut['field'] if it.mut else 'none', 'model': CH.get(mrun[j], mrun[j]),
+                        'cxx': cxx, 'std': std}
+                chk.report_failure({
+                    'kind': 'impl≠spec', 'config': {'cxx': cxx, 'std': std, 'defines': ['SBEPP_ENABLE_ASSERTS_WITH_HANDLER']},
+                    'schema_xml': open(it.case.xml).read(), 'message': it.m['name'], 'image': wire.hexs(it.img),
+                    'mutation': it.mut, 'n': n, 'cursor_member': k, 'cursor_wrapper': var,
+                    'driver_line': 'ctrav %s %s %d %d  # answer character %d' % (
+                        it.m['name'], wire.hexs(it.img), n, nr // 5, j),
+                    'model_line': c10gen.lean_ctrav_request(it.case.layout['byteOrder'], BASE, it.img, str(n), it.m,
+                                                            [r[2] for r in it.cruns], detail=True),
+                    'observed': {'impl': CH[got], 'spec': CH[exp], 'model': CH.get(mrun[j], mrun[j])},
+                    'case': case})
+            if mrun[j] == 'U' or huge:
+                stats['model_undefined'] += 1
+            elif got != mrun[j] and ('model', j) not in reported:
+                reported.add(('model', j))
+                stats['model_mismatch'] += 1
+                chk.report_unproved('impl≠model (Rt.Guards cursor traversal does not describe what the accessors do)', {
+                    'cursor_member': k, 'wrapper': var, 'kind': kind, 'n': n, 'impl': CH[got],
+                    'model': CH.get(mrun[j], mrun[j]), 'spec': CH[exp], 'schema_xml': open(it.case.xml).read(),
+                    'message': it.m['name'], 'image': wire.hexs(it.img), 'cxx': cxx, 'std': std,
+                    'model_line': c10gen.lean_ctrav_request(it.case.layout['byteOrder'], BASE, it.img, str(n), it.m,
+                                                            [r[2] for r in it.cruns], detail=True)[:3000]})
+
+
 def run_schemas(chk, nschemas, configs, values_per_msg, muts_per_image, max_image=220, max_chains=260):
     run = W.WireRun(chk, nschemas, configs, values_per_msg=values_per_msg, seed_salt=10, max_depth=3)
     stats = {'calls': 0, 'kinds': {}, 'outcomes': {}, 'boundary': 0, 'ok_beyond_needs': 0, 'model_mismatch': 0,
-             'ok_beyond_needs_kinds': {}, 'ok_beyond_needs_samples': [], 'violations_by_cause': {}, 'model_undefined': 0,
-             'images': 0, 'mutated_images': 0, 'chains': 0, 'truncation_points': 0}
+             'ok_beyond_needs_kinds': {}, 'ok_beyond_needs_samples': [], 'violations_by_cause': {}, 'model_undefined': 0, 'wrap_regime_ok': 0,
+             'images': 0, 'mutated_images': 0, 'chains': 0, 'truncation_points': 0, 'cursor_calls': 0,
+             'cursor_runs': 0}
     try:
         if not run.prepare():
             return run, stats
@@ -240,6 +321,10 @@ def run_schemas(chk, nschemas, configs, values_per_msg, muts_per_image, max_imag
         # model
         reqs = [c10gen.lean_request(it.case.layout['byteOrder'], BASE, it.img, 'all', it.m,
                                     [(ev.needs_end, ev.lean_ops) for ev in it.evals]) for it in items]
+        creqs = [(i, c10gen.lean_ctrav_request(it.case.layout['byteOrder'], BASE, it.img, 'all', it.m,
+                                               [r[2] for r in it.cruns]))
+                 for i, it in enumerate(items) if it.cruns]
+        stats['cursor_runs'] = sum(len(it.cruns) for it in items)
 
         def model_chunk(lines):
             return run.model_lines(lines)
@@ -255,6 +340,18 @@ def run_schemas(chk, nschemas, configs, values_per_msg, muts_per_image, max_imag
                         it.model = None
                     else:
                         it.model = [b.split('/') for b in blocks]
+        cchunks = [creqs[i::core.NPROC] for i in range(core.NPROC)]
+        cchunks = [ch for ch in cchunks if ch]
+        with cf.ThreadPoolExecutor(core.NPROC) as ex:
+            for ch, outs in zip(cchunks, ex.map(lambda ch: run.model_lines([r[1] for r in ch]), cchunks)):
+                for (i, rq), o in zip(ch, outs):
+                    blocks = o.split(',')
+                    it = items[i]
+                    if o.startswith('bad-op') or len(blocks) != len(it.img) + 1:
+                        chk.report_unproved('model-ctrav', {'answer': o[:300], 'request': rq[:800]})
+                        it.cruns = []
+                    else:
+                        it.cmodel = [b.split('/') for b in blocks]
         chk.log('model answers done')
         # implementation
         per_driver = {}
@@ -268,8 +365,12 @@ def run_schemas(chk, nschemas, configs, values_per_msg, muts_per_image, max_imag
 
         def drive(job):
             (exe, cxx, std), idxs = job
-            lines = ['trunc %s %s all %s' % (items[i].m['name'], wire.hexs(items[i].img) or '-',
-                                              ';'.join(ev.cpp_path for ev in items[i].evals)) for i in idxs]
+            lines = []
+            for i in idxs:
+                lines.append('trunc %s %s all %s' % (items[i].m['name'], wire.hexs(items[i].img) or '-',
+                                                     ';'.join(ev.cpp_path for ev in items[i].evals)))
+                lines.append('ctrav %s %s all %d' % (items[i].m['name'], wire.hexs(items[i].img) or '-',
+                                                    len(items[i].cruns) // 5))
             rc, outs = run.run_driver(exe, lines)
             return job, rc, outs
         with cf.ThreadPoolExecutor(core.NPROC) as ex:
@@ -277,12 +378,18 @@ def run_schemas(chk, nschemas, configs, values_per_msg, muts_per_image, max_imag
         chk.log('driver runs done')
         nontrivial = set()
         for ((exe, cxx, std), idxs), rc, outs in results:
-            if rc != 0 or len(outs) != len(idxs):
-                chk.report_unproved('driver-run', {'rc': rc, 'answers': len(outs), 'requests': len(idxs),
+            if rc != 0 or len(outs) != 2 * len(idxs):
+                chk.report_unproved('driver-run', {'rc': rc, 'answers': len(outs), 'requests': 2 * len(idxs),
                                                    'tail': outs[-1][:200] if outs else ''})
                 continue
-            for i, o in zip(idxs, outs):
+            for i, o, oc in zip(idxs, outs[0::2], outs[1::2]):
                 it = items[i]
+                if it.cruns and it.cmodel is not None:
+                    cblocks = oc.split(',')
+                    if len(cblocks) != len(it.img) + 1 or any(len(b) != len(it.cruns) for b in cblocks):
+                        chk.report_unproved('driver-answer-ctrav', {'answer': oc[:200], 'message': it.m['name']})
+                    else:
+                        judge_cursor(chk, run, it, cxx, std, cblocks, stats)
                 blocks = o.split(',')
                 if len(blocks) != len(it.img) + 1 or any(len(b) != len(it.evals) for b in blocks):
                     chk.report_unproved('driver-answer', {'answer': o[:200], 'message': it.m['name']})
